@@ -36,7 +36,8 @@ from harness.common import guarded
 RULE = (
     "cases from one SplitMix64 stream: a real PPO / A2C / DQN / SAC / TD3 / DDPG model (net_arch=[4], CPU) trained for "
     "2-4 rollouts (on-policy) or 16-40 steps (off-policy) on a random 3-dim Box environment with Discrete / Box / "
-    "MultiDiscrete / MultiBinary actions, 1-3 envs, episode ends of both kinds; hyper-parameters drawn per case: gamma, "
+    "MultiDiscrete / MultiBinary actions (PPO / A2C on Box actions also with gSDE, sde_sample_freq -1/1/2/4, with and without "
+    "squash_output - the squashed gSDE distribution has no analytic entropy, the objective then uses -mean(log_prob)), 1-3 envs, episode ends of both kinds; hyper-parameters drawn per case: gamma, "
     "constant / linear / affine learning-rate schedule, PPO clip_range 0.05-0.3 and clip_range_vf None/0.05/0.2/1 "
     "(constant, or scheduled down to a quarter of the initial value), ent_coef 0-0.5, vf_coef 0.25-2, advantage normalisation on/off, minibatch sizes dividing / not "
     "dividing / equal to the rollout (ragged and length-1 minibatches), 1-3 epochs, max_grad_norm 0.01-100, shared / "
@@ -99,8 +100,15 @@ def gen_case(rng, widen, thorough):
         "checked": rng.randint(1, 2) if not thorough else rng.randint(1, 3),
     }
     if algo in ("ppo", "a2c"):
-        case["act"] = rng.weighted([("discrete", 3), ("box", 3), ("multidiscrete", 1), ("multibinary", 1)])
+        case["act"] = rng.weighted([("discrete", 3), ("box", 5), ("multidiscrete", 1), ("multibinary", 1)])
         case["ent_coef"] = rng.weighted([(0.0, 1), (0.01, 3), (0.1, 3), (0.5, 2)])
+        # gSDE (Box actions only); with the tanh bijector (squash_output) the distribution has NO analytic entropy:
+        # evaluate_actions returns entropy=None and the objective uses the estimate -mean(log pi(a|s))
+        case["use_sde"] = case["act"] == "box" and rng.chance(0.55)
+        case["squash"] = bool(case["use_sde"] and rng.chance(0.65))
+        case["sde_sample_freq"] = rng.choice([-1, 1, 2, 4])
+        if case["use_sde"]:
+            case["ent_coef"] = rng.choice([0.01, 0.1, 0.5, 0.05])
         case["vf_coef"] = rng.choice([0.5, 0.25, 1.0, 2.0])
         case["normalize"] = rng.chance(0.6)
         case["max_grad_norm"] = rng.choice([0.5, 0.05, 10.0, 0.01, 100.0])
@@ -172,6 +180,8 @@ def shrink_candidates(case):
         yield alt(checked=1)
     if case.get("perturb", 0.0):
         yield alt(perturb=0.0)
+    if case.get("use_sde") and not case.get("squash"):
+        yield alt(use_sde=False)
     if case.get("n_epochs", 1) > 1:
         yield alt(n_epochs=1)
     if case.get("lr_kind") != "const":
@@ -280,17 +290,22 @@ def build(case):
             pk.pop("share_features_extractor")
     kw = dict(policy="MlpPolicy", env=env, learning_rate=make_schedule(case["lr_kind"], case["lr0"], case["lr_end"]),
               gamma=case["gamma"], seed=case["seed"], device="cpu", verbose=0)
+    sde = {}
+    if algo in ("ppo", "a2c") and case.get("use_sde"):
+        sde = dict(use_sde=True, sde_sample_freq=case.get("sde_sample_freq", -1))
+        if case.get("squash"):
+            pk["squash_output"] = True
     if algo == "ppo":
         m = sb3.PPO(n_steps=case["n_steps"], batch_size=case["batch_size"], n_epochs=case["n_epochs"],
                     gae_lambda=case["gae_lambda"],
                     clip_range=make_schedule(case["clip_kind"], case["clip"], case["clip"] / 4),
                     clip_range_vf=None if case["clip_vf"] is None else make_schedule(case["clip_vf_kind"], case["clip_vf"], case["clip_vf"] / 4),
                     normalize_advantage=case["normalize"], ent_coef=case["ent_coef"], vf_coef=case["vf_coef"],
-                    max_grad_norm=case["max_grad_norm"], policy_kwargs=pk, **kw)
+                    max_grad_norm=case["max_grad_norm"], policy_kwargs=pk, **sde, **kw)
     elif algo == "a2c":
         m = sb3.A2C(n_steps=case["n_steps"], gae_lambda=case["gae_lambda"], normalize_advantage=case["normalize"],
                     ent_coef=case["ent_coef"], vf_coef=case["vf_coef"], max_grad_norm=case["max_grad_norm"],
-                    use_rms_prop=case["rms"], policy_kwargs=pk, **kw)
+                    use_rms_prop=case["rms"], policy_kwargs=pk, **sde, **kw)
     else:
         off = dict(buffer_size=200, learning_starts=case["learning_starts"], batch_size=case["batch_size"],
                    tau=case["tau"], train_freq=(case["train_freq"], "step"), gradient_steps=case["gradient_steps"])
@@ -324,7 +339,19 @@ class Rec:
         self.trains = deque(maxlen=case["checked"])
         self.cur = None
         self.n_train = 0
-        self.ref = copy.deepcopy(model.policy)  # before any wrapper is installed
+        try:
+            self.ref = copy.deepcopy(model.policy)  # before any wrapper is installed
+        except RuntimeError:
+            # gSDE keeps non-leaf tensors (exploration matrices) that cannot be deep-copied: rebuild the policy from
+            # its constructor parameters (the torch RNG is put back, the run itself is not disturbed)
+            keep = th.get_rng_state()
+            data = model.policy._get_constructor_parameters()
+            if hasattr(model.policy, "share_features_extractor"):
+                # not part of ActorCriticPolicy._get_constructor_parameters
+                data.setdefault("share_features_extractor", model.policy.share_features_extractor)
+            self.ref = model.policy.__class__(**data)
+            self.ref.load_state_dict(model.policy.state_dict())
+            th.set_rng_state(keep)
         pol = model.policy
         self.names = {id(p): n for n, p in pol.named_parameters()}
         if self.algo == "sac" and getattr(model, "ent_coef_optimizer", None) is not None:
@@ -643,6 +670,10 @@ def pg_checks(ctx, case, rec, tr):
             sc.flags.add("grad_clip_active")
         if n == 1:
             sc.flags.add("minibatch_of_one")
+        if ent is None:
+            sc.flags.add("entropy_estimated_from_log_prob")
+        elif case.get("use_sde"):
+            sc.flags.add("gsde_analytic_entropy")
         sc.oracle = og
         sc.oracle_skip = kink < KINK
         # ---------------- model ops ----------------
